@@ -599,6 +599,8 @@ func sendToEvmDenomGuard(fd *ast.FuncDecl) bool {
 
 // sendToBank: before every bank MintCoins call an if whose condition compares a BitLen() with
 // math.MaxBitLen and whose body returns (the sum supply + amount is checked against 256 bits)
+var supplyCond = regexp.MustCompile(`^[A-Za-z0-9_.()]+\.BitLen\(\)>math\.MaxBitLen$`)
+
 func sendToBankSupplyGuard(fd *ast.FuncDecl) bool {
 	if fd == nil || fd.Body == nil {
 		return false
@@ -612,7 +614,7 @@ func sendToBankSupplyGuard(fd *ast.FuncDecl) bool {
 			}
 		case *ast.IfStmt:
 			c := Nospace(x.Cond)
-			if strings.Contains(c, ".BitLen()>math.MaxBitLen") && returnsInside(x.Body) {
+			if supplyCond.MatchString(c) && returnsInside(x.Body) {
 				guards = append(guards, x.Pos())
 			}
 		}
